@@ -297,6 +297,33 @@ def coq_list(items):
     return '[' + '; '.join(items) + ']'
 
 
+class TimeLimitExceeded(Exception):
+    pass
+
+
+class time_limit(object):
+    """with time_limit(s): ... raises TimeLimitExceeded in the main thread when the block runs longer (a conversion
+    whose fixpoint iteration does not terminate must become a reported failure, not a hanging check)"""
+
+    def __init__(self, seconds):
+        self.seconds = seconds
+
+    def __enter__(self):
+        import signal
+
+        def handler(signum, frame):
+            raise TimeLimitExceeded('did not finish within %d s' % self.seconds)
+        self.old = signal.signal(signal.SIGALRM, handler)
+        signal.setitimer(signal.ITIMER_REAL, self.seconds)
+        return self
+
+    def __exit__(self, *a):
+        import signal
+        signal.setitimer(signal.ITIMER_REAL, 0)
+        signal.signal(signal.SIGALRM, self.old)
+        return False
+
+
 def coq_bool(b):
     return 'true' if b else 'false'
 
